@@ -166,6 +166,51 @@ def rule_visit7(prog, rep, tier, anchor="ast_utils.RewriteAtQuery"):
             rep.holds("VISIT-7", "%s handles %s without descending into its body" % (m.node.name, k), loc(prog, m.node), "")
 
 
+def rule_visit8(prog, rep, tier, anchor="ast_utils.RewriteAtQuery", caller="conformance._conform_filename"):
+    """VISIT-8 (C10): sync decides "this target already is what would be written" by comparing the found node with the replacement
+    *before* it hands the replacement to the replacer.  The comparison speaks for the written text only if the replacer puts the
+    replacement in as it was given: no method of the replacer stores into a field of `self.replacement_node` (re-binding the
+    attribute to another node, as the argument handler does, is not a store into the compared node).  A replacer that copies
+    something from the replaced node onto the replacement (its decorators, its docstring) makes the two differ on every run: the
+    target is rewritten with the same bytes and reported as modified for ever."""
+    ci = prog.cls(anchor)
+    cf = prog.fn(caller)
+    compares = [c for c in ast.walk(cf.node) if isinstance(c, ast.Call) and isinstance(c.func, ast.Name) and c.func.id == "cmp_ast"]
+    if not compares:
+        raise AnalysisError("VISIT-8: %s no longer compares the found node with the replacement (cmp_ast)" % caller)
+    n = 0
+    for name, m in sorted(ci.methods.items()):
+        aliases = {"replacement_node"}
+        for st in ast.walk(m.node):
+            if isinstance(st, ast.Assign) and len(st.targets) == 1 and isinstance(st.targets[0], ast.Name) and isinstance(st.value, ast.Attribute) \
+                    and st.value.attr == "replacement_node":
+                aliases.add(st.targets[0].id)
+
+        def is_repl(e):
+            return (isinstance(e, ast.Attribute) and e.attr == "replacement_node" and isinstance(e.value, ast.Name) and e.value.id == "self") \
+                or (isinstance(e, ast.Name) and e.id in aliases - {"replacement_node"})
+        for st in ast.walk(m.node):
+            tgts = st.targets if isinstance(st, ast.Assign) else [st.target] if isinstance(st, (ast.AugAssign, ast.AnnAssign)) else []
+            for t in tgts:
+                base = t
+                while isinstance(base, ast.Subscript):
+                    base = base.value
+                if isinstance(base, ast.Attribute) and is_repl(base.value):
+                    n += 1
+                    rep.violation(Finding(
+                        "VISIT-8", "%s.%s" % (anchor, name), "replacement-altered:%s" % base.attr,
+                        "%s stores into the replacement node (%s) after %s has compared that node with the target: what is written is not what was compared, so a "
+                        "target that has what is copied over (%s) never compares equal - every run rewrites it with the same bytes and reports it as modified"
+                        % (name, src(st, 60), caller, base.attr), loc(prog, st)))
+            if isinstance(st, ast.Call) and isinstance(st.func, ast.Name) and st.func.id == "setattr" and st.args and is_repl(st.args[0]):
+                n += 1
+                rep.violation(Finding("VISIT-8", "%s.%s" % (anchor, name), "replacement-altered:setattr",
+                                      "%s stores into the replacement node (%s) after %s has compared that node with the target" % (name, src(st, 60), caller), loc(prog, st)))
+    if n == 0:
+        rep.holds("VISIT-8", "%s: %d method(s), none stores into a field of the replacement node" % (anchor, len(ci.methods)), loc(prog, ci.node),
+                  "the node %s compared is the node that is written" % caller)
+
+
 def rule_visit2(prog, rep, tier, anchor="ast_utils.RewriteAtQuery"):
     """VISIT-2: replacement happens at most once: every site that sets replaced=True is guarded by `not self.replaced`."""
     ci = prog.cls(anchor)
@@ -715,6 +760,36 @@ def rule_visit4(prog, rep, tier, anchor="ast_utils.annotate_ancestry"):
                                   "location but resolves to nothing and is never replaced" % (", ".join(sorted(got)), ", ".join(sorted(set(DEFINITION_KINDS) - got))), loc(prog, st)))
         elif got:
             rep.holds("VISIT-4", "definition kinds that receive a location: %s" % ", ".join(sorted(got)), loc(prog, st), "all three")
+    # (prefix clause) the scope a node gives its children: `[<node>.name] if <test> else []`.  Every kind of definition that can hold
+    # children is a scope - a class test there must admit all of them, or what is nested in the left-out kind gets the address of its
+    # module-level namesake.
+    for f_ in prog.region(fi):
+        for ie in ast.walk(f_.node):
+            if not (isinstance(ie, ast.IfExp) and isinstance(ie.body, ast.List) and len(ie.body.elts) == 1 and isinstance(ie.body.elts[0], ast.Attribute)
+                    and ie.body.elts[0].attr == "name" and isinstance(ie.orelse, ast.List) and not ie.orelse.elts):
+                continue
+            tests = [c for c in ast.walk(ie.test) if isinstance(c, ast.Call) and isinstance(c.func, ast.Name) and c.func.id == "isinstance" and len(c.args) == 2]
+            if not tests:
+                rep.holds("VISIT-4", "scope prefix %s" % src(ie, 60), loc(prog, ie), "given by whatever has a name")
+                continue
+            resolved = set()
+            for c in tests:
+                for x in ast.walk(c.args[1]):
+                    if isinstance(x, ast.Name):
+                        resolved.add(x.id)
+                        v = folder.fold(x, {}, ie)
+                        if isinstance(v, (tuple, list)):
+                            resolved |= {getattr(y, "__name__", str(y)) for y in v}
+                    elif isinstance(x, ast.Attribute):
+                        resolved.add(x.attr)
+            missing = set(DEFINITION_KINDS) - resolved
+            if resolved & set(DEFINITION_KINDS) and missing:
+                rep.violation(Finding("VISIT-4", anchor, "definition-kinds-without-scope:%s" % ",".join(sorted(missing)),
+                                      "%s makes only %s a scope for their children: what is defined inside a %s gets the location of a module-level definition of the "
+                                      "same name, and is found / replaced in its stead" % (src(ie, 70), ", ".join(sorted(resolved & set(DEFINITION_KINDS))), ", ".join(sorted(missing))),
+                                      loc(prog, ie)))
+            else:
+                rep.holds("VISIT-4", "scope prefix %s" % src(ie, 60), loc(prog, ie), "every kind of definition is a scope")
     if len(res) < 3:
         raise AnalysisError("VISIT-4: only %d _location assignments found" % len(res))
 
